@@ -72,6 +72,7 @@ const (
 	OpExtract // hi, lo
 	OpConcat
 	OpUF // uninterpreted function application, name
+	OpHexNib // BV4 -> BV8: lower-case hex digit of a nibble (injective)
 	// reals
 	OpRAdd
 	OpRSub
@@ -424,6 +425,8 @@ func evalOp(t *Term, a []uint64) uint64 {
 		return (a[0] >> uint(t.Lo)) & mask(t.Hi-t.Lo+1)
 	case OpConcat:
 		return ((a[0] << uint(t.Args[1].S.W)) | a[1]) & mask(w)
+	case OpHexNib:
+		return uint64("0123456789abcdef"[a[0]&15])
 	}
 	panic(fmt.Sprintf("evalOp: op %d", t.Op))
 }
@@ -718,6 +721,8 @@ func (tt *TermTable) Extract(a *Term, hi, lo int) *Term {
 	return tt.mk(t)
 }
 
+func (tt *TermTable) HexNib(a *Term) *Term { return tt.node(OpHexNib, BV(8), a) }
+
 func (tt *TermTable) UF(name string, ret Sort, args ...*Term) *Term {
 	if _, ok := tt.ufs[name]; !ok {
 		var as []string
@@ -828,6 +833,9 @@ func body(t *Term) string {
 			return t.Name
 		}
 		return fmt.Sprintf("(%s %s)", t.Name, j)
+	case OpHexNib:
+		x := as[0]
+		return fmt.Sprintf("(ite (bvult %s #xa) (bvadd ((_ zero_extend 4) %s) #x30) (bvadd ((_ zero_extend 4) %s) #x57))", x, x, x)
 	case OpToReal:
 		// signed interpretation of the bit-vector
 		w := t.Args[0].S.W
